@@ -235,7 +235,7 @@ func c05AckedByAll(c *Check, P string, r *GCRoles) {
 					}
 					var dcalls []ssa.CallInstruction
 					for _, x := range CallsIn(lit) {
-						if x.Common().StaticCallee() == r.Deliver {
+						if CalleeFn(x.Common()) == r.Deliver {
 							dcalls = append(dcalls, x)
 						}
 					}
